@@ -31,6 +31,10 @@ func VerifC15Wire(writes int, level int) {
 	if explicit {
 		status = verifrt.IntRange("status", 200, 599)
 	}
+	// flush requests change nothing about status, headers or body (before any header is
+	// written an early flush commits an implicit 200 like on a bare connection)
+	flushEarly := explicit && verifrt.Bool("flushRightAfterHeader")
+	flushLate := verifrt.Bool("flushAfterBody")
 	sizes := make([]int, writes)
 	total := 0
 	for i := range sizes {
@@ -55,13 +59,24 @@ func VerifC15Wire(writes int, level int) {
 			// a HEAD-like / cut-short exchange declares more than it delivers
 			w.Header().Set("Content-Length", strconv.Itoa(total+overDeclare))
 		}
+		flush := func() {
+			if f, ok := w.(http.Flusher); ok {
+				f.Flush()
+			}
+		}
 		if explicit {
 			w.WriteHeader(status)
+		}
+		if flushEarly {
+			flush() // as ReverseProxy does for streaming / trailer-announcing backends: right after the header
 		}
 		off := 0
 		for _, n := range sizes {
 			w.Write([]byte(verifPayload[off : off+n]))
 			off += n
+		}
+		if flushLate {
+			flush()
 		}
 	}))
 	r := verifRequest()
